@@ -12,7 +12,7 @@ def _c13_small(args):
     lo, hi = rng_of(tx)
     ly, hy = rng_of(ty)
     xs = list(range(lo, hi + 1))
-    out = [x_bits.observe_bitwise(fx, np, [pid], 'not', tx, xs), x_bits.observe_bitwise(fx, np, [pid], 'not', tx, xs, hist=['inplace', 'view', 'elementwise', 'intfmt', 'fortran', 'transposed'][idx % 6])]
+    out = [x_bits.observe_bitwise(fx, np, [pid], 'not', tx, xs), x_bits.observe_bitwise(fx, np, [pid], 'not', tx, xs, hist=['inplace', 'view', 'elementwise', 'intfmt', 'fortran', 'transposed', 'empty'][idx % 7])]
     for c in xs[:: max(1, len(xs) // 4)]:
         out.append(x_bits.observe_bitwise(fx, np, [pid], 'not', tx, [c], scalar=True))
     for op in ('and', 'or', 'xor'):
@@ -59,6 +59,10 @@ def _c13_wide(args):
         ys = [ly, hy, 0, rng.randint(ly, hy), rng.randint(ly, hy)]
         out.append(x_bits.observe_bitwise(fx, np, [pid], 'not', tx, xs))
         out.append(x_bits.observe_bitwise(fx, np, [pid], 'not', tx, [rng.choice(xs)], scalar=True))
+        # operands that were created EMPTY (or from a dtype string) and then loaded with codes: their value type is float
+        out.append(x_bits.observe_bitwise(fx, np, [pid], 'not', tx, xs, hist='empty'))
+        out.append(x_bits.observe_bitwise(fx, np, [pid], rng.choice(['and', 'or', 'xor']), tx, xs, mask=rng.choice([(1 << w) - 1, rng.getrandbits(w), -2, 1]), side=rng.choice(['left', 'right']), hist='empty'))
+        out.append(x_bits.observe_bitwise(fx, np, [pid], rng.choice(['and', 'or', 'xor']), tx, [rng.choice(xs)], ty=ty, cys=rng.choice(ys), scalar=True, hist='empty'))
         for op in ('and', 'or', 'xor'):
             cy = rng.choice(ys)
             out.append(x_bits.observe_bitwise(fx, np, [pid], op, tx, [rng.choice(xs)], ty=ty, cys=cy, scalar=True))
